@@ -137,6 +137,8 @@ impl Command for SystemCommand
 {
     fn apply(self, world: &mut World)
     {
+        #[cfg(cobweb_verif)]
+        crate::verif::emit(crate::verif::Event::Cmd{ kind: "run", sys: *self, src: None, rtype: None, data: None });
         syscommand_runner(world, self, SystemCommandSetup::default(), SystemCommandCleanup::default());
     }
 }
@@ -169,6 +171,10 @@ impl Command for EventCommand
 {
     fn apply(self, world: &mut World)
     {
+        #[cfg(cobweb_verif)]
+        crate::verif::emit(crate::verif::Event::Cmd{
+            kind: "sysev", sys: *self.system, src: None, rtype: None, data: Some(self.data_entity)
+        });
         world.resource_mut::<SystemEventAccessTracker>().prepare(self.system, self.data_entity);
         syscommand_runner(
             world,
@@ -244,10 +250,17 @@ impl Command for ReactionCommand
         {
             Self::Resource{ reactor } =>
             {
+                #[cfg(cobweb_verif)]
+                crate::verif::emit(crate::verif::Event::Cmd{ kind: "res", sys: *reactor, src: None, rtype: None, data: None });
                 syscommand_runner(world, reactor, SystemCommandSetup::default(), SystemCommandCleanup::default());
             }
             Self::EntityReaction{ reaction_source, reaction_type, reactor } =>
             {
+                #[cfg(cobweb_verif)]
+                crate::verif::emit(crate::verif::Event::Cmd{
+                    kind: "ereact", sys: *reactor, src: Some(reaction_source),
+                    rtype: Some(crate::verif::rtype_parts(reaction_type)), data: None
+                });
                 world.resource_mut::<EntityReactionAccessTracker>().prepare(reactor, reaction_source, reaction_type);
                 syscommand_runner(
                     world,
@@ -258,6 +271,10 @@ impl Command for ReactionCommand
             }
             Self::Despawn{ reaction_source, reactor, handle } =>
             {
+                #[cfg(cobweb_verif)]
+                crate::verif::emit(crate::verif::Event::Cmd{
+                    kind: "desp", sys: *reactor, src: Some(reaction_source), rtype: None, data: None
+                });
                 world.resource_mut::<DespawnAccessTracker>().prepare(reactor, reaction_source, handle);
                 syscommand_runner(
                     world,
@@ -267,6 +284,10 @@ impl Command for ReactionCommand
             }
             Self::EntityEvent{ target, data_entity, reactor } =>
             {
+                #[cfg(cobweb_verif)]
+                crate::verif::emit(crate::verif::Event::Cmd{
+                    kind: "eev", sys: *reactor, src: Some(target), rtype: None, data: Some(data_entity)
+                });
                 // Include entity reaction tracker for EntityWorldReactor.
                 world.resource_mut::<EntityReactionAccessTracker>().prepare(
                     reactor,
@@ -282,6 +303,10 @@ impl Command for ReactionCommand
             }
             Self::BroadcastEvent{ data_entity, reactor } =>
             {
+                #[cfg(cobweb_verif)]
+                crate::verif::emit(crate::verif::Event::Cmd{
+                    kind: "bc", sys: *reactor, src: None, rtype: None, data: Some(data_entity)
+                });
                 world.resource_mut::<EventAccessTracker>().prepare(reactor, data_entity);
                 syscommand_runner(world,
                     reactor,
